@@ -294,11 +294,10 @@ func (self *LockManagerQueue) Restructuring() error {
 		}
 	}
 
-	for tailNodeIndex > self.tailNodeIndex+1 {
-		self.queues[tailNodeIndex] = nil
-		self.nodeQueueSizes[tailNodeIndex] = 0
+	for self.nodeIndex > self.tailNodeIndex+1 {
+		self.queues[self.nodeIndex] = nil
+		self.nodeQueueSizes[self.nodeIndex] = 0
 		self.nodeIndex--
-		tailNodeIndex--
 	}
 	self.queueSize = self.nodeQueueSizes[self.nodeIndex]
 	self.rellacTailNodeIndex = 0
@@ -625,11 +624,10 @@ func (self *LockQueue) Restructuring() error {
 		}
 	}
 
-	for tailNodeIndex > self.tailNodeIndex+1 {
-		self.queues[tailNodeIndex] = nil
-		self.nodeQueueSizes[tailNodeIndex] = 0
+	for self.nodeIndex > self.tailNodeIndex+1 {
+		self.queues[self.nodeIndex] = nil
+		self.nodeQueueSizes[self.nodeIndex] = 0
 		self.nodeIndex--
-		tailNodeIndex--
 	}
 	self.queueSize = self.nodeQueueSizes[self.nodeIndex]
 	self.rellacTailNodeIndex = 0
@@ -954,11 +952,10 @@ func (self *LockCommandQueue) Restructuring() error {
 		}
 	}
 
-	for tailNodeIndex > self.tailNodeIndex+1 {
-		self.queues[tailNodeIndex] = nil
-		self.nodeQueueSizes[tailNodeIndex] = 0
+	for self.nodeIndex > self.tailNodeIndex+1 {
+		self.queues[self.nodeIndex] = nil
+		self.nodeQueueSizes[self.nodeIndex] = 0
 		self.nodeIndex--
-		tailNodeIndex--
 	}
 	self.queueSize = self.nodeQueueSizes[self.nodeIndex]
 	self.rellacTailNodeIndex = 0
